@@ -93,7 +93,11 @@ func verifC40Snapshot() control.Snapshot {
 	}
 }
 
-func verifC40NewEnv(rt *rapid.T, coalesce bool) *verifC40Env {
+type verifC40TB interface {
+	Fatalf(format string, args ...any)
+}
+
+func verifC40NewEnv(rt verifC40TB, coalesce bool) *verifC40Env {
 	dir, rm := kit.TempDir()
 	db, err := metadb.Open(filepath.Join(dir, "meta"))
 	if err != nil {
@@ -133,7 +137,7 @@ func verifC40NewEnv(rt *rapid.T, coalesce bool) *verifC40Env {
 	return env
 }
 
-func (e *verifC40Env) hashSlot(rt *rapid.T) uint16 {
+func (e *verifC40Env) hashSlot(rt verifC40TB) uint16 {
 	hs, err := e.prop.route(verifC40Channel)
 	if err != nil {
 		rt.Fatalf("route: %v", err)
@@ -142,7 +146,7 @@ func (e *verifC40Env) hashSlot(rt *rapid.T) uint16 {
 }
 
 // durable reads every stored lane of every message.
-func (e *verifC40Env) durable(rt *rapid.T) map[string]map[string]metadb.MessageEventState {
+func (e *verifC40Env) durable(rt verifC40TB) map[string]map[string]metadb.MessageEventState {
 	out := map[string]map[string]metadb.MessageEventState{}
 	hs := e.hashSlot(rt)
 	for _, no := range verifC40Msgs {
@@ -746,4 +750,54 @@ func TestVerifC40PartialCacheLoss(t *testing.T) {
 		sm.run(rt, k)
 		k.SetNonTrivial(sm.st.lossesWithContent > 0 && sm.st.finishOK+sm.st.finishMiss > 0)
 	})
+}
+
+// TestVerifC40PartialCacheLossRepro: the minimal history of the recorded
+// finding, replayed deterministically on every run (delta, leadership loss,
+// delta, finish). Strict: the finish must fail closed or keep the lost delta;
+// the one recorded signature is reported as KNOWN-FINDING while listed.
+func TestVerifC40PartialCacheLossRepro(t *testing.T) {
+	col := kit.For(t, "C40")
+	env := verifC40NewEnv(t, false)
+	defer env.cleanup()
+	ev := func(id, typ, payload string) metadb.MessageEventAppend {
+		key := "main"
+		if typ == metadb.EventTypeStreamFinish {
+			key = metadb.EventKeyFinish
+		}
+		return metadb.MessageEventAppend{ChannelID: verifC40Channel, ChannelType: verifC40ChannelType, ClientMsgNo: "m1", EventID: id,
+			EventKey: key, EventType: typ, Visibility: metadb.VisibilityPublic, Payload: []byte(payload)}
+	}
+	ctx := context.Background()
+	if _, err := env.node.AppendMessageEvent(ctx, ev("e1", metadb.EventTypeStreamDelta, `{"kind":"text","delta":"a"}`)); err != nil {
+		t.Fatalf("delta 1: %v", err)
+	}
+	env.loseLeadership()
+	if _, err := env.node.AppendMessageEvent(ctx, ev("e2", metadb.EventTypeStreamDelta, `{"kind":"text","delta":"bb"}`)); err != nil {
+		t.Fatalf("delta 2: %v", err)
+	}
+	_, err := env.node.AppendMessageEvent(ctx, ev("e3", metadb.EventTypeStreamFinish, `{"end_reason":3}`))
+	lanes := env.durable(t)["m1"]
+	k := col.NewCase()
+	k.Key("repro: delta a / leadership loss / delta bb / finish")
+	k.NonTrivial()
+	k.Label("deterministic reproduction of the partial-cache-loss finding")
+	k.Sample(func() any {
+		return fmt.Sprintf("delta a; leadership loss; delta bb; finish -> err=%v durable=%s", err, verifC40LaneSummary(lanes))
+	})
+	fin, completed := lanes[metadb.EventKeyFinish]
+	switch {
+	case errors.Is(err, ErrMessageEventStreamCacheMiss) && !completed:
+		// fail closed: the property holds (the finding has been repaired)
+	case err == nil && completed && fin.Status == metadb.EventStatusClosed && strings.Contains(string(lanes["main"].SnapshotPayload), `"abb"`):
+		// nothing dropped
+	case err == nil && completed:
+		if !kit.KnownFinding("C40", verifC40PartialLossSignature) {
+			t.Fatalf("C40 violated: delta a / leadership loss / delta bb / finish completed the projection without the lost delta: %s", verifC40LaneSummary(lanes))
+		}
+		k.Label("KNOWN FINDING pattern: finish after partial cache loss completed")
+	default:
+		t.Fatalf("C40 (leader cache): unexpected outcome err=%v durable=%s", err, verifC40LaneSummary(lanes))
+	}
+	col.Commit(k)
 }
